@@ -235,16 +235,41 @@ func isCtxErrCall(v ssa.Value, ctx ssa.Value) bool {
 }
 
 // ctxGuardEdge: edge (b,si) is the "ctx.Err() == nil" edge of a test on ctx.
-func ctxGuardEdge(b *ssa.BasicBlock, si int, ctx ssa.Value, within *Loop) bool {
+// ctxTest recognises a cancellation test of ctx at the end of block b and returns the successor index taken when the
+// context is NOT cancelled. Idioms: `ctx.Err() != nil` / `== nil`, and the non-blocking
+// `select { case <-ctx.Done(): ... default: ... }`.
+func ctxTest(b *ssa.BasicBlock, ctx ssa.Value) (bool, int) {
 	iff, ok := b.Instrs[len(b.Instrs)-1].(*ssa.If)
 	if !ok {
-		return false
+		return false, 0
 	}
+	if kind, sNil, okc := condOn(iff.Cond, func(v ssa.Value) bool { return isCtxErrCall(v, ctx) }); okc && kind == "nil" {
+		return true, sNil
+	}
+	// select: idx := extract(select nonblocking [<-ctx.Done()]) #0 ; idx == 0 -> cancelled
+	if bo, ok := iff.Cond.(*ssa.BinOp); ok && (bo.Op == token.EQL || bo.Op == token.NEQ) {
+		if ex, ok := bo.X.(*ssa.Extract); ok && ex.Index == 0 {
+			if sel, ok := ex.Tuple.(*ssa.Select); ok && !sel.Blocking && len(sel.States) == 1 {
+				if k, okk := constInt(bo.Y); okk && k == 0 {
+					if call, ok := sel.States[0].Chan.(*ssa.Call); ok && call.Call.IsInvoke() && call.Call.Method.Name() == "Done" && unspill(call.Call.Value) == ctx {
+						if bo.Op == token.EQL {
+							return true, 1
+						}
+						return true, 0
+					}
+				}
+			}
+		}
+	}
+	return false, 0
+}
+
+func ctxGuardEdge(b *ssa.BasicBlock, si int, ctx ssa.Value, within *Loop) bool {
 	if within != nil && !within.Blocks[b] {
 		return false
 	}
-	kind, sNil, okc := condOn(iff.Cond, func(v ssa.Value) bool { return isCtxErrCall(v, ctx) })
-	return okc && kind == "nil" && si == sNil
+	ok, sNot := ctxTest(b, ctx)
+	return ok && si == sNot
 }
 
 func ruleENG11(c *Ctx) {
@@ -285,8 +310,8 @@ func ruleENG11(c *Ctx) {
 		if !ok {
 			continue
 		}
-		kind, sNil, okc := condOn(iff.Cond, func(v ssa.Value) bool { return isCtxErrCall(v, ctx) })
-		if !okc || kind != "nil" {
+		okc, sNil := ctxTest(b, ctx)
+		if !okc {
 			continue
 		}
 		nb := b.Succs[1-sNil]
@@ -343,8 +368,8 @@ func ruleENG11(c *Ctx) {
 			if !ok {
 				continue
 			}
-			kind, sNil, okc := condOn(iff.Cond, func(v ssa.Value) bool { return isCtxErrCall(v, rctx) })
-			if !okc || kind != "nil" {
+			okc, sNil := ctxTest(b, rctx)
+			if !okc {
 				continue
 			}
 			nb := b.Succs[1-sNil]
